@@ -8,7 +8,7 @@
    All statements quantify over ALL iterator states / element lists / parameters / callbacks
    (callbacks are arbitrary total functions value -> result). *)
 From Coq Require Import List ZArith NArith Bool.
-From KV.iter Require Import IterModel IterSpec IterFuel IterSem IterRev IterLazy IterMore.
+From KV.iter Require Import IterModel IterSpec IterFuel IterSem IterRev IterLazy IterMore IterErr.
 Import ListNotations.
 Open Scope N_scope.
 
@@ -132,6 +132,33 @@ Theorem find_stops_at_first_hit : forall p q it vs,
 Proof. exact IterSem.find_stops_at_first_hit. Qed.
 Print Assumptions find_stops_at_first_hit.
 
+(* --- errors: a sequence with an Error at position k (a generator body that throws there, a callback that
+       throws on that element).  `consumer_spec` covers every total consumer loop, including the VM-level
+       `for x in it` / `for _ in it` (CFor).  `exits_early c pre` = the loop returns while looking at `pre`. --- *)
+Theorem failing_generator_source : forall id items k, Sem (SFail id items k false) (spec_fail items k).
+Proof. exact Sem_fail. Qed.
+Print Assumptions failing_generator_source.
+
+(* every consumer returns Err e iff it pulls position k; otherwise its result is the one on the prefix alone
+   (e.g. take / find / any that stop before the failure point do NOT raise) *)
+Theorem consume_propagates_error : forall c it pre e rest r,
+  Sem it (ok_all pre ++ RErr e :: rest) ->
+  consumer_spec c (ok_all pre ++ RErr e :: rest) = Some r ->
+  (exists n t it', consume c n it = Some (t, r, it')) /\
+  (if exits_early c pre then consumer_spec c (ok_all pre) = Some r else r = CErr e).
+Proof. exact IterErr.consume_propagates_error. Qed.
+Print Assumptions consume_propagates_error.
+
+(* ... and the failing element is pulled (no longer in the iterator) exactly in the second case *)
+Theorem error_pulled_iff_no_early_exit : forall St f (good : St -> Prop) (isErr : N -> St -> Prop),
+  (forall s o tc s', good s -> f s o = (tc, s', false) -> good s') ->
+  (forall s e, good s -> exists tc s', f s (OErr e) = (tc, s', true) /\ isErr e s') ->
+  forall pre s e rest, good s ->
+  (fold_stop St f s pre = true -> fold_rest St f s (pre ++ RErr e :: rest) = fold_rest St f s pre ++ RErr e :: rest) /\
+  (fold_stop St f s pre = false -> fold_rest St f s (pre ++ RErr e :: rest) = rest /\ isErr e (fold_spec St f s (pre ++ RErr e :: rest))).
+Proof. exact IterErr.error_pulled_iff_no_early_exit. Qed.
+Print Assumptions error_pulled_iff_no_early_exit.
+
 (* --- reversed --- *)
 Theorem reversed_list_is_rev : forall l, Sem (Reversed (mk_list l)) (ok_all (rev l)).
 Proof. exact IterRev.reversed_list_is_rev. Qed.
@@ -237,6 +264,14 @@ Example chunks_windows_example :
   spec_chunks 2 [VInt 1; VInt 2; VInt 3] = [ROk (VTup [VInt 1; VInt 2]); ROk (VTup [VInt 3])] /\
   spec_windows 2 [VInt 1; VInt 2; VInt 3] = [ROk (VTup [VInt 1; VInt 2]); ROk (VTup [VInt 2; VInt 3])] /\
   spec_intersperse (VInt 0) (ok_all [VInt 1; VInt 2]) = ok_all [VInt 1; VInt 0; VInt 2].
+Proof. vm_compute. auto. Qed.
+
+Example error_example :
+  (* `for _ in <generator failing at element 1>` raises; `.take(1)` in front of it does not *)
+  run_case (SFail 1 [VInt 3; VInt 1; VInt 4] 1 false) [] (CFor true) =
+    (0%Z, [enc_event (EvPull 1 (VInt 3)); enc_event EvNone; enc_event (EvFail 1)], enc_cres (CErr E_THROW)) /\
+  run_case (SFail 1 [VInt 3; VInt 1; VInt 4] 1 false) [ATake 1] (CFor true) =
+    (0%Z, [enc_event (EvPull 1 (VInt 3)); enc_event EvNone], enc_cres (CVal (VInt 1))).
 Proof. vm_compute. auto. Qed.
 
 Example denote_example :
